@@ -7,6 +7,7 @@ import (
 	"testing"
 
 	mocker "github.com/tencent/goom"
+	"github.com/tencent/goom/arg"
 	"github.com/tencent/goom/zzverif/vmon"
 )
 
@@ -22,6 +23,7 @@ type tgt struct {
 	ocb    func() interface{} // callback that calls the origin placeholder
 	ph     interface{}        // pointer to placeholder var
 	phAddr uintptr
+	recvIsParam bool // As(): the receiver is an ordinary first parameter of the stub
 }
 
 func targets() []*tgt {
@@ -45,6 +47,19 @@ func targets() []*tgt {
 			cb:     func(v int) interface{} { return func(t *CT, a int) int { return v } },
 			ocb:    func() interface{} { return func(t *CT, a int) int { return (*ph)(t, a) | marker } },
 			ph:     ph, phAddr: vmon.FuncCodePtr(*ph)})
+	}
+	// unexported methods reached through Struct(x).ExportMethod(name): several of them on one struct in one builder
+	ums := []func(*CT, int) int{(*CT).um0, (*CT).um1, (*CT).um2}
+	phus := []*func(*CT, int) int{&phu0, &phu1, &phu2}
+	for k := range ums {
+		m, ph, k := ums[k], phus[k], k
+		ts = append(ts, &tgt{name: fmt.Sprintf("CT.um%d", k), entry: vmon.FuncCodePtr(m), call: func(a int) int { return m(&CT{v: 9}, a) }, orig: func(a int) int { return 9 + a*(k+5) + 300 + k },
+			handle: func(b *mocker.Builder) mocker.ExportedMocker {
+				return b.Struct(&CT{}).ExportMethod(fmt.Sprintf("um%d", k)).As(func(t *CT, a int) int { return 0 })
+			},
+			cb:  func(v int) interface{} { return func(t *CT, a int) int { return v } },
+			ocb: func() interface{} { return func(t *CT, a int) int { return (*ph)(t, a) | marker } },
+			ph:  ph, phAddr: vmon.FuncCodePtr(*ph), recvIsParam: true})
 	}
 	return ts
 }
@@ -266,7 +281,11 @@ func (w *world) apply(o op) {
 			if o.kind == "return" {
 				w.ts[o.t].handle(b).Return(retVal(o.b, o.t))
 			} else {
-				w.ts[o.t].handle(b).When(whenArg(o.t)).Return(whenVal(o.b, o.t))
+				if w.ts[o.t].recvIsParam {
+					w.ts[o.t].handle(b).When(arg.Any(), whenArg(o.t)).Return(whenVal(o.b, o.t))
+				} else {
+					w.ts[o.t].handle(b).When(whenArg(o.t)).Return(whenVal(o.b, o.t))
+				}
 			}
 			c := w.cfgs[o.b][o.t]
 			if c.mode != "stub" {
@@ -304,13 +323,16 @@ func (w *world) release(bi, ti int) {
 	if !w.touched[bi][ti] {
 		return
 	}
+	live := w.cfgs[bi][ti].mode != "none" && w.cfgs[bi][ti].mode != ""
 	w.cfgs[bi][ti] = cfg{mode: "none"}
 	switch {
-	case w.cur[ti] == bi && !w.amb[ti]:
-		w.cur[ti] = -1 // X's own target: back to the original, definitely
+	case live:
+		// "after a builder's Reset (or a mocker's Cancel) every function it mocked behaves exactly as before":
+		// X still had a live configuration on t, so t is original and pristine now, whoever patched it last
+		w.cur[ti], w.amb[ti] = -1, false
 	case w.cur[ti] == -1 && !w.amb[ti]:
 	default:
-		w.amb[ti] = true // another builder is in effect on a target X touched as well
+		w.amb[ti] = true // X only touched t earlier (already cancelled) and another builder is in effect
 	}
 	// once no builder has a live configuration for t it must be pristine and original again
 	for b := range w.bs {
